@@ -90,6 +90,7 @@ func verifC03Target() *verifc03.Target {
 			}
 			for _, in := range ins {
 				var err error
+				rec.Mark()
 				if lossless {
 					err = w.AppendTarLossLess(bytes.NewReader(in))
 				} else {
